@@ -950,8 +950,19 @@ func TestCorr(t *testing.T) {
 			hs = append(hs, genLadder(run.Rng))
 		}
 	}
-	for _, h := range hs {
+	for hi, h := range hs {
 		w := runHistory(t, h)
+		if hi < len(files) && os.Getenv("VERIF_REPLAY") == "" {
+			// observation (d) (design/C12.md): the witnesses of theorem grace_after_every_unjailing_refuted on the real keeper
+			switch filepath.Base(files[hi]) {
+			case "d_unjail_right_after_sweep.json":
+				g, _ := w.k.VerifC12GraceStart(w.ctx, w.addr[0])
+				run.Count("observation_d_sweep_witness_reproduced_on_real_keeper", fmt.Sprint(w.nJail == 2 && w.nSoonAfterUnjail == 1 && g == 1))
+			case "d_jailed_by_later_end_blocker.json":
+				g, _ := w.k.VerifC12GraceStart(w.ctx, w.addr[0])
+				run.Count("observation_d_later_end_blocker_witness_no_new_grace_on_real_keeper", fmt.Sprint(g == 1 && !w.val(0).IsJailed()))
+			}
+		}
 		for _, v := range w.viol {
 			p := strings.SplitN(v, "|", 2)
 			run.Violate(p[0], p[1], h)
